@@ -370,6 +370,12 @@ func (st *Runtime) executeYieldBlock(block *BlockNode, blockParam, yieldParam *B
 		st.content = func(st *Runtime, expression Expression) {
 			outscope := st.scope
 			outcontent := st.content
+			// restore them also when the content panics: the enclosing lists release
+			// their scopes in deferred calls and must find the scope chain they left
+			defer func() {
+				st.scope = outscope
+				st.content = outcontent
+			}()
 
 			st.scope = myscope
 			st.content = mycontent
@@ -382,9 +388,6 @@ func (st *Runtime) executeYieldBlock(block *BlockNode, blockParam, yieldParam *B
 			} else {
 				st.executeList(content)
 			}
-
-			st.scope = outscope
-			st.content = outcontent
 		}
 	}
 
